@@ -366,7 +366,7 @@ def run(ctx):
                "reason recorded and the walk continues; borrowing from a busy pool may wait (2 s in the driver) before giving up")
     ctx.assume("RETRY_NEXT_HOST with explicit host= targeting has no next host: the expected outcome is NoHostAvailable listing that host")
     cases = all_cases()
-    budget = 32 if ctx.quick else 240
+    budget = 32 if ctx.quick else 150
     base = ctx.seed * 1000003
     done_slice = True
     if ctx.quick:
